@@ -326,3 +326,21 @@ Theorem C09_star_is_everything : forall cat ps, In [STAR] ps ->
   expand cat ps = nodup_sort cat /\ expand_not cat ps = [].
 Proof. exact expand_star. Qed.
 Print Assumptions C09_star_is_everything.
+
+(* one statement's expanded action list depends only on the SETS of its Action and NotAction patterns, not on their order *)
+Theorem C09_statement_pattern_order_irrelevant : forall cat acts acts' ns ns', Permutation acts acts' -> Permutation ns ns' ->
+  stmt_expanded cat acts (Some ns) = stmt_expanded cat acts' (Some ns') /\
+  stmt_expanded cat acts None = stmt_expanded cat acts' None.
+Proof. exact stmt_expanded_perm. Qed.
+Print Assumptions C09_statement_pattern_order_irrelevant.
+
+Theorem C09_statement_same_pattern_sets : forall cat acts acts' nots nots',
+  incl acts acts' -> incl acts' acts ->
+  match nots, nots' with
+  | Some ns, Some ns' => incl ns ns' /\ incl ns' ns
+  | None, None => True
+  | _, _ => False
+  end ->
+  stmt_expanded cat acts nots = stmt_expanded cat acts' nots'.
+Proof. exact stmt_expanded_same_sets. Qed.
+Print Assumptions C09_statement_same_pattern_sets.
